@@ -1484,7 +1484,13 @@ class TargetVol(Algo):
 
         # calc covariance matrix
         if self.covar_method == "ledoit-wolf":
-            covar = sklearn.covariance.ledoit_wolf(returns)
+            # ledoit_wolf returns (covariance, shrinkage) as arrays and does
+            # not accept the NaN first row of a return series
+            covar = pd.DataFrame(
+                sklearn.covariance.ledoit_wolf(returns.dropna())[0],
+                index=returns.columns,
+                columns=returns.columns,
+            )
         elif self.covar_method == "standard":
             covar = returns.cov()
         else:
@@ -1572,7 +1578,13 @@ class PTE_Rebalance(Algo):
 
         # calc covariance matrix
         if self.covar_method == "ledoit-wolf":
-            covar = sklearn.covariance.ledoit_wolf(returns)
+            # ledoit_wolf returns (covariance, shrinkage) as arrays and does
+            # not accept the NaN first row of a return series
+            covar = pd.DataFrame(
+                sklearn.covariance.ledoit_wolf(returns.dropna())[0],
+                index=returns.columns,
+                columns=returns.columns,
+            )
         elif self.covar_method == "standard":
             covar = returns.cov()
         else:
